@@ -95,6 +95,32 @@ def classify_graph_difference(ga, gb):
     return ORDER_MECH
 
 
+def scenario_match_deleted_then_restored():
+    """A match of a static pattern that a step reads is deleted (the plan runs again and no longer
+    declares it, the step still waits for it: its node is detached and has no role) and comes back."""
+    import copy
+    spec = {"sources": {"src/s0.txt": "s0\n", "src/s1.txt": "s1\n"}, "env": {},
+            "steps": {"T": {"kind": "do", "salt": "", "inp": ["src/s1.txt"], "out": ["out/t.txt"]},
+                      "U": {"kind": "do", "salt": "", "inp": ["src/s0.txt"], "out": ["out/u.txt"]}},
+            "plans": {".": [["pattern", "src/*.txt"], ["step", "T"], ["step", "U"]]}, "order": ["T", "U"]}
+    p1 = copy.deepcopy(spec)
+    del p1["sources"]["src/s1.txt"]
+    # T is declared differently as well, so it is created again and with it the node of its missing
+    # input, which then has no role at all
+    p1["steps"]["T"]["inp"] = ["src/s1.txt", "src/s0.txt"]
+    p2 = copy.deepcopy(p1)
+    p2["sources"]["src/s1.txt"] = "s1\n"
+    return spec, [{"edits": [["delete_match", "src/s1.txt"]], "spec": p1},
+                  {"edits": [["restore_match", "src/s1.txt"]], "spec": p2}]
+
+
+PHASE_SCENARIOS = {
+    "failed_plan_then_edit": lambda: c01.SEED_SCENARIOS["failed_plan_then_edit"](),
+    "failed_plan_then_new_match": lambda: c01.SEED_SCENARIOS["failed_plan_then_new_match"](),
+    "match_deleted_then_restored": scenario_match_deleted_then_restored,
+}
+
+
 def gen_cases(tier, seed):
     n = 16 if tier == "quick" else 300
     cases = [{"id": f"c14-{seed}-{i}", "seed": seed * 6007 + i, "rounds": 4 if tier == "quick" else 6}
@@ -107,7 +133,7 @@ def gen_cases(tier, seed):
     # plan edits in watch mode: a plan that fails, then its repair together with a change of something
     # that only the (meanwhile detached) sub-plan declared
     cases += [{"id": f"c14-phases-{seed}-{k}-{j}", "seed": seed * 6007 + 97000 + 10 * i + j, "rounds": 2, "scenario": k}
-              for i, k in enumerate(["failed_plan_then_edit", "failed_plan_then_new_match"])
+              for i, k in enumerate(sorted(PHASE_SCENARIOS))
               for j in range(2 if tier == "quick" else 8)]
     return cases
 
@@ -316,8 +342,8 @@ def run_case(case):
                 "plans": {".": [["static", ["src/s0.txt"]], ["pattern", "in/*/*.src"], ["glob", "in/*/*.src", tmpl],
                                 ["glob", "in/*/"], ["step", "t0"]]},
                 "order": ["t0"]}
-    elif case.get("scenario", "").startswith("failed_plan"):
-        spec, phase_list = c01.SEED_SCENARIOS[case["scenario"]]()
+    elif case.get("scenario") in PHASE_SCENARIOS:
+        spec, phase_list = PHASE_SCENARIOS[case["scenario"]]()
     elif case.get("scenario") == "flat_glob":
         tmpl = {"cmd": "do " + json.dumps([{"a": "read", "path": "{m}"}, {"a": "write", "path": "out/g_{b}.txt"}]),
                 "inp": ["{m}"], "out": ["out/g_{b}.txt"]}
@@ -364,12 +390,12 @@ def run_case(case):
                         break
                     events = []
                     memory["newdir"] = False
-                    if case.get("scenario", "").startswith("failed_plan"):
+                    if case.get("scenario") in PHASE_SCENARIOS:
                         # the user's edits of this phase (plans included), all at once
                         state["files"] = gen.render(phase_list[k]["spec"], previous=state["files"])
                         user_files.update(dict.fromkeys(gen.user_files(phase_list[k]["spec"]), True))
                         events.append(["edit_phase", json.dumps(phase_list[k]["edits"])])
-                    for _ in range(0 if case.get("scenario", "").startswith("failed_plan") else rng.choice([1, 1, 2, 3])):
+                    for _ in range(0 if case.get("scenario") in PHASE_SCENARIOS else rng.choice([1, 1, 2, 3])):
                         kind = rng.choice(EVENT_KINDS)
                         if case.get("scenario") == "deep_glob" and rng.random() < 0.4:
                             kind = rng.choice(["new_empty_dir", "new_sibling_dir", "remove_dir", "move_dir",
@@ -403,7 +429,7 @@ def run_case(case):
                     shutil.copytree(".", copy, symlinks=True)
                     # some static files are edited while the rebuild runs (next round sees them)
                     during = []
-                    if rng.random() < 0.3 and not case.get("scenario", "").startswith("failed_plan"):
+                    if rng.random() < 0.3 and not case.get("scenario") in PHASE_SCENARIOS:
                         srcs = sorted(p for p in tree(".") if p in user_files and p.startswith(("src/", "data/", "in/")))
                         if srcs:
                             ctl.queue.append(rng.choice(srcs))
